@@ -63,6 +63,13 @@ func judge(w *world, rq *request, c *reqCtx, code int, base backend.BasePayloadR
 	badKEK := (kekUsable(nsLabel, nsKEK) && !validKEKLen(nsKEK)) || (kekUsable(asLabel, asKEK) && !validKEKLen(asKEK))
 	rxBad := rq.rxDelay < 0 || rq.rxDelay > 15
 
+	// a key rotation between the device building its request and storage
+	// serving it is a legitimate mismatch (the request is answered for the
+	// other generation): not judged beyond J3
+	if rq.kind != 4 && c.gotKeys && c.gen != rq.gen {
+		simrt.Count(cRotRace)
+		return
+	}
 	if rq.kind == 4 {
 		ans := got.(backend.HomeNSAnsPayload)
 		switch {
@@ -149,7 +156,7 @@ func judge(w *world, rq *request, c *reqCtx, code int, base backend.BasePayloadR
 		}
 	}
 	simrt.Count(cSuccess)
-	ja, err := rq.rec.dev.ProcessJoinAccept(phy, reqType, rq.nonce)
+	ja, err := rq.dev.ProcessJoinAccept(phy, reqType, rq.nonce)
 	if err != nil {
 		simrt.Report("j1.accept-shape:"+kindName, fmt.Sprintf("device cannot read the join-accept %x: %v", []byte(phy), err))
 		return
@@ -184,7 +191,7 @@ func judge(w *world, rq *request, c *reqCtx, code int, base backend.BasePayloadR
 
 	// session keys: envelopes (after unwrapping with the configured KEKs)
 	// must equal what the device derives
-	keys := rq.rec.dev.DeriveKeys(ja, rq.nonce)
+	keys := rq.dev.DeriveKeys(ja, rq.nonce)
 	cmp := func(name string, env *backend.KeyEnvelope, label string, kek []byte, want spec.Key) {
 		k, why := openEnvelope(w, name, env, label, kek)
 		if why != "" {
@@ -199,15 +206,15 @@ func judge(w *world, rq *request, c *reqCtx, code int, base backend.BasePayloadR
 				// LoRaWAN 1.0-style derivation (NetID based, AppSKey from
 				// NwkKey) although the accept sets OptNeg. Anything else
 				// keeps the generic signature.
-				legacy := rq.rec.dev.DeriveKeys(spec.JoinAccept{JoinNonce: ja.JoinNonce, NetIDLE: ja.NetIDLE, OptNeg: false}, rq.nonce)
+				legacy := rq.dev.DeriveKeys(spec.JoinAccept{JoinNonce: ja.JoinNonce, NetIDLE: ja.NetIDLE, OptNeg: false}, rq.nonce)
 				lk := map[string]spec.Key{"AppSKey": legacy.AppS, "FNwkSIntKey": legacy.FNwkSInt,
-					"SNwkSIntKey": spec.SessionKey10(rq.rec.dev.NwkKey, 0x03, ja.JoinNonce, ja.NetIDLE, rq.nonce),
-					"NwkSEncKey":  spec.SessionKey10(rq.rec.dev.NwkKey, 0x04, ja.JoinNonce, ja.NetIDLE, rq.nonce)}[name]
+					"SNwkSIntKey": spec.SessionKey10(rq.dev.NwkKey, 0x03, ja.JoinNonce, ja.NetIDLE, rq.nonce),
+					"NwkSEncKey":  spec.SessionKey10(rq.dev.NwkKey, 0x04, ja.JoinNonce, ja.NetIDLE, rq.nonce)}[name]
 				if bytes.Equal(k, lk[:]) {
 					sig = "joinkeys:rejoin:optneg:" + name
 				}
 			}
-			simrt.Report(sig, fmt.Sprintf("%s in the answer is %x, the device derives %x (optneg=%v, JoinNonce=%d, nonce/RJCount=%d, DevEUI=%x)", name, k, want[:], ja.OptNeg, ja.JoinNonce, rq.nonce, rq.rec.dev.DevEUI))
+			simrt.Report(sig, fmt.Sprintf("%s in the answer is %x, the device derives %x (optneg=%v, JoinNonce=%d, nonce/RJCount=%d, DevEUI=%x)", name, k, want[:], ja.OptNeg, ja.JoinNonce, rq.nonce, rq.dev.DevEUI))
 		}
 	}
 	cmp("AppSKey", envs.a, asLabel, asKEK, keys.AppS)
